@@ -24,7 +24,7 @@ echo "### full suite WITH change" >>"$log"
 timeout 1200 cargo test --workspace --no-fail-fast --offline >"$out/suite_with.log" 2>&1; s1=$?
 passed=$(grep -h "^test result" "$out/suite_with.log" | awk '{p+=$4; f+=$6} END{print p" passed "f" failed"}')
 echo "suite exit=$s1 $passed" >>"$log"
-cp "$src/demo.rs" "$place"
+mkdir -p "$(dirname "$place")"; cp "$src/demo.rs" "$place"
 echo "### demo WITH change" >>"$log"
 timeout 600 cargo test --offline -p "$pkg" --test "$tname" >"$out/demo_with.log" 2>&1; d1=$?
 echo "demo with: exit=$d1" >>"$log"
